@@ -165,12 +165,6 @@ func (st *State) deliver(th *Thread, callIns ssa.Instruction, res Value) {
 			fr.set(v, res)
 		}
 	}
-	if fr.onRet != nil {
-		f := fr.onRet
-		fr.onRet = nil
-		f(res)
-		return
-	}
 	if !fr.inDefers() {
 		fr.ip++
 	}
@@ -247,14 +241,16 @@ func (st *State) step(th *Thread) {
 	}
 	ins := fr.block.Instrs[fr.ip]
 	th.started = true
-	st.nInstr++
-	if st.nInstr > st.p.Cfg.MaxInstr {
+	if !st.restart {
+		st.nInstr++
+	}
+	if st.instrBase+st.nInstr > st.p.Cfg.MaxInstr {
 		st.abort(abBound, fmt.Sprintf("instruction budget %d exceeded", st.p.Cfg.MaxInstr))
 	}
 	if p := ins.Pos(); p != token.NoPos {
 		st.lastPos = p
 	}
-	if st.concurrent {
+	if st.concurrent && !st.restart {
 		switch ins.(type) {
 		case *ssa.Call, *ssa.Store, *ssa.UnOp, *ssa.Send, *ssa.Select:
 			if th.ihits == nil {
@@ -323,9 +319,7 @@ func (st *State) step(th *Thread) {
 		fr.set(x, st.lookup(fr, x))
 	case *ssa.MakeChan:
 		sz := st.eval(fr, x.Size).(*Term)
-		ch := &ChanObj{id: len(st.handles), cap: int(st.concretize(sz, "chan size")), ET: x.Type().Underlying().(*types.Chan).Elem()}
-		st.handleFor(ch)
-		fr.set(x, ch)
+		fr.set(x, st.newChan(int(st.concretize(sz, "chan size")), x.Type().Underlying().(*types.Chan).Elem()))
 	case *ssa.MakeClosure:
 		env := make([]Value, len(x.Bindings))
 		for i, b := range x.Bindings {
@@ -336,13 +330,11 @@ func (st *State) step(th *Thread) {
 		fr.set(x, IfaceV{T: x.X.Type(), V: st.eval(fr, x.X)})
 	case *ssa.MakeMap:
 		mt := x.Type().Underlying().(*types.Map)
-		m := &MapObj{id: len(st.handles), KT: mt.Key(), VT: mt.Elem()}
-		st.handleFor(m)
-		fr.set(x, m)
+		fr.set(x, st.newMap(mt.Key(), mt.Elem()))
 	case *ssa.MakeSlice:
 		fr.set(x, st.makeSlice(fr, x))
 	case *ssa.MapUpdate:
-		st.mapUpdate(st.eval(fr, x.Map).(*MapObj), st.eval(fr, x.Key), st.eval(fr, x.Value))
+		st.mapUpdate(st.eval(fr, x.Map).(MapRef), st.eval(fr, x.Key), st.eval(fr, x.Value))
 	case *ssa.Next:
 		fr.set(x, st.rangeNext(fr, x))
 	case *ssa.Panic:
@@ -728,14 +720,14 @@ func (st *State) binop(op token.Token, a, b Value, TA, TB types.Type) Value {
 			return c.False
 		}
 		return c.True
-	case *MapObj:
-		y := b.(*MapObj)
+	case MapRef:
+		y := b.(MapRef)
 		if op == token.EQL {
 			return c.Bool(x == y)
 		}
 		return c.Bool(x != y)
-	case *ChanObj:
-		y := b.(*ChanObj)
+	case ChanRef:
+		y := b.(ChanRef)
 		if op == token.EQL {
 			return c.Bool(x == y)
 		}
@@ -1067,7 +1059,8 @@ func (st *State) keyEq(a, b Value) *Term {
 	return nil
 }
 
-func (st *State) mapFind(m *MapObj, k Value) int {
+func (st *State) mapFind(r MapRef, k Value) int {
+	m := st.mapR(r)
 	if m == nil {
 		return -1
 	}
@@ -1079,11 +1072,13 @@ func (st *State) mapFind(m *MapObj, k Value) int {
 	return -1
 }
 
-func (st *State) mapUpdate(m *MapObj, k, v Value) {
-	if m == nil {
+func (st *State) mapUpdate(r MapRef, k, v Value) {
+	if r == 0 {
 		st.fail("assignment to entry in nil map")
 	}
-	if i := st.mapFind(m, k); i >= 0 {
+	i := st.mapFind(r, k)
+	m := st.mapW(r)
+	if i >= 0 {
 		m.Vals[i] = v
 		return
 	}
@@ -1091,21 +1086,22 @@ func (st *State) mapUpdate(m *MapObj, k, v Value) {
 	m.Vals = append(m.Vals, v)
 }
 
-func (st *State) mapDelete(m *MapObj, k Value) {
-	if i := st.mapFind(m, k); i >= 0 {
+func (st *State) mapDelete(r MapRef, k Value) {
+	if i := st.mapFind(r, k); i >= 0 {
+		m := st.mapW(r)
 		m.Keys = append(m.Keys[:i:i], m.Keys[i+1:]...)
 		m.Vals = append(m.Vals[:i:i], m.Vals[i+1:]...)
 	}
 }
 
 func (st *State) lookup(fr *Frame, x *ssa.Lookup) Value {
-	switch m := st.eval(fr, x.X).(type) {
-	case *MapObj:
+	switch mr := st.eval(fr, x.X).(type) {
+	case MapRef:
 		k := st.eval(fr, x.Index)
-		i := st.mapFind(m, k)
+		i := st.mapFind(mr, k)
 		var v Value
 		if i >= 0 {
-			v = m.Vals[i]
+			v = st.mapR(mr).Vals[i]
 		} else {
 			v = st.zero(x.X.Type().Underlying().(*types.Map).Elem())
 		}
@@ -1115,30 +1111,30 @@ func (st *State) lookup(fr *Frame, x *ssa.Lookup) Value {
 		return v
 	case StrV:
 		idx := st.toIndex(st.eval(fr, x.Index), x.Index.Type())
-		st.boundsCheck(idx, m.Len, "string index out of range")
-		return st.load(st.c.Add(m.Ptr, idx), types.Typ[types.Uint8])
+		st.boundsCheck(idx, mr.Len, "string index out of range")
+		return st.load(st.c.Add(mr.Ptr, idx), types.Typ[types.Uint8])
 	}
 	st.abort(abUnsupported, "Lookup")
 	return nil
 }
 
+// rangeIter is an immutable snapshot of the map at range start; the position lives in the state's iterator table.
 type rangeIter struct {
-	m    *MapObj
 	keys []Value
 	vals []Value
-	i    int
-	str  *StrV
 }
 
 func (st *State) rangeInit(fr *Frame, x *ssa.Range) Value {
-	switch m := st.eval(fr, x.X).(type) {
-	case *MapObj:
-		it := &rangeIter{m: m}
-		if m != nil {
+	switch mr := st.eval(fr, x.X).(type) {
+	case MapRef:
+		it := &rangeIter{}
+		if m := st.mapR(mr); m != nil {
 			it.keys = append([]Value(nil), m.Keys...)
 			it.vals = append([]Value(nil), m.Vals...)
 		}
-		return it
+		st.iters = append(st.iters, it)
+		st.iterPos = append(st.iterPos, 0)
+		return IterRef(len(st.iters) - 1)
 	case StrV:
 		st.abort(abUnsupported, "range over string")
 	}
@@ -1147,14 +1143,15 @@ func (st *State) rangeInit(fr *Frame, x *ssa.Range) Value {
 }
 
 func (st *State) rangeNext(fr *Frame, x *ssa.Next) Value {
-	it := st.eval(fr, x.Iter).(*rangeIter)
+	r := st.eval(fr, x.Iter).(IterRef)
+	it := st.iters[r]
 	tt := x.Type().(*types.Tuple)
-	if it.i >= len(it.keys) {
+	i := st.iterPos[r]
+	if i >= len(it.keys) {
 		return Agg{st.c.False, st.zeroOrNil(tt.At(1).Type()), st.zeroOrNil(tt.At(2).Type())}
 	}
-	k, v := it.keys[it.i], it.vals[it.i]
-	it.i++
-	return Agg{st.c.True, k, v}
+	st.iterPos[r] = i + 1
+	return Agg{st.c.True, it.keys[i], it.vals[i]}
 }
 
 func (st *State) zeroOrNil(T types.Type) Value {
